@@ -1184,7 +1184,7 @@ Theorem exactly_once_with_refill_policies : forall (pols : list lagpolicy), fora
             /\ rpublished n (rfinal pol cap n m sched) <= k /\ k <= n
             /\ (r_prog (rfinal pol cap n m sched) = [] -> k = n).
 Proof.
-  intros pols H pol Hin. rewrite forallb_forall in H. specialize (H pol Hin). destruct pol; [discriminate|].
+  intros pols H pol Hin. rewrite forallb_forall in H. specialize (H pol Hin). destruct pol; [discriminate| |discriminate].
   exact exactly_once_with_refill.
 Qed.
 
@@ -1208,4 +1208,145 @@ Lemma refill_demo :
      = [[0; 1; 2; 3; 4; 5]; [0; 1; 2; 3; 4; 5]; [0; 1; 2; 3; 4; 5]]
   /\ map (rdelivered LagSkip (rfinal LagSkip 2 6 3 refill_demo_sched)) (r_subs (rfinal LagSkip 2 6 3 refill_demo_sched))
      = [[0; 1; 2; 3; 4; 5]; [0; 4; 5]; [0; 1; 2; 4; 5]].
+Proof. vm_compute. repeat split. Qed.
+
+(* ---------- the window between the history re-read and the next recv (wfinal) ---------- *)
+Definition wproj (s : wst) : rst := {| r_prog := w_prog s; r_hist := w_hist s; r_subs := map w_s (w_subs s) |}.
+Definition WInv (n : nat) (s : wst) : Prop :=
+  exists p r, RPInv n (wproj s) p r /\ Forall (fun x => RSInv p r (w_s x)) (w_subs s).
+
+Lemma RSInv_wrefill p r s : p <= r -> 2 <= rs_pc s -> RSInv p r s -> RSInv p r (wrefill (seq 0 r) s).
+Proof.
+  intros Hpr Hpc [(Hc & _)|[(Hc & _)|(_ & q & o & Hq & Hown & Ho & Hor & Hpend)]]; [lia|lia|].
+  right; right. unfold wrefill. cbn [rs_pc rs_live rs_out rs_pend]. split; [exact Hpc|]. exists q, r.
+  repeat split; try assumption; try lia.
+  rewrite Ho, (emit_seq r 0 o) by lia. cbn [Nat.add]. f_equal. lia.
+Qed.
+
+Lemma RSInv_wplain p r s : p <= r -> 2 <= rs_pc s -> rs_pend s = false -> RSInv p r s ->
+  RSInv p r (wplain s) /\ exists k, rs_out (wplain s) = seq 0 k /\ p <= k /\ k <= r.
+Proof.
+  intros Hpr Hpc Hnp [(Hc & _)|[(Hc & _)|(_ & q & o & Hq & Hown & Ho & Hor & Hpend)]]; [lia|lia|].
+  specialize (Hpend Hnp).
+  assert (rs_out (wplain s) = seq 0 (Nat.max o (q + (p - q)))) as Hout.
+  { unfold wplain. cbn [rs_out]. rewrite Hown, Ho. apply emit_seq. exact Hpend. }
+  split.
+  - right; right. split; [unfold wplain; cbn [rs_pc]; exact Hpc|]. exists p, (Nat.max o (q + (p - q))).
+    repeat split; try lia; [|exact Hout].
+    unfold wplain. cbn [rs_live own flat_map]. replace (p - p) with 0 by lia. reflexivity.
+  - exists (Nat.max o (q + (p - q))). split; [exact Hout|lia].
+Qed.
+
+Lemma wdrain_refill_shape hist x :
+  wdrain LagRefill hist x = if rs_pend (w_s x) then {| w_s := wrefill hist (w_s x); w_win := true |}
+                            else {| w_s := wplain (w_s x); w_win := false |}.
+Proof. unfold wdrain. destruct (w_win x); reflexivity. Qed.
+
+Lemma RSInv_wdrain p r x : p <= r -> 2 <= rs_pc (w_s x) -> RSInv p r (w_s x) ->
+  RSInv p r (w_s (wdrain LagRefill (seq 0 r) x)) /\ 2 <= rs_pc (w_s (wdrain LagRefill (seq 0 r) x))
+  /\ rs_pend (w_s (wdrain LagRefill (seq 0 r) x)) = false.
+Proof.
+  intros Hpr Hpc H. rewrite wdrain_refill_shape. destruct (rs_pend (w_s x)) eqn:Ep; cbn [w_s].
+  - split; [apply RSInv_wrefill; assumption|]. split; [exact Hpc|reflexivity].
+  - split; [apply (RSInv_wplain p r); assumption|]. split; [exact Hpc|reflexivity].
+Qed.
+
+Lemma RSInv_wsub p r x : p <= r -> RSInv p r (w_s x) -> RSInv p r (w_s (wsub_step LagRefill (seq 0 r) x)).
+Proof.
+  intros Hpr H. unfold wsub_step. destruct (rs_pc (w_s x)) as [|[|pc]] eqn:Epc.
+  - cbn [w_s]. destruct H as [(Hc & Ho)|[(Hc & _)|(Hc & _)]]; [|lia|lia].
+    unfold rsub_step. rewrite Epc. right; left. cbn [rs_pc rs_live rs_out]. split; [reflexivity|]. exists p. repeat split; [lia|].
+    replace (p - p) with 0 by lia. reflexivity.
+  - cbn [w_s]. destruct H as [(Hc & _)|[(Hc & q & Hq & Hown & Ho)|(Hc & _)]]; [lia| |lia].
+    unfold rsub_step. rewrite Epc. right; right. cbn [rs_pc rs_live rs_out rs_pend]. split; [lia|]. exists q, r. repeat split; auto. intros _. lia.
+  - apply RSInv_wdrain; [exact Hpr|lia|exact H].
+Qed.
+
+Lemma WInv_init n m : WInv n (winit n m).
+Proof.
+  exists 0, 0. split.
+  - split; [reflexivity|]. left. repeat split; lia.
+  - cbn [winit w_subs]. apply Forall_forall. intros x Hx. apply repeat_spec in Hx. subst x. left. split; reflexivity.
+Qed.
+
+Lemma WInv_step cap n s a : WInv n s -> WInv n (wstep LagRefill cap s a).
+Proof.
+  intros (p & r & (Hh & HP) & HS). cbn [wproj r_hist r_prog] in Hh, HP. destruct a as [|i|].
+  - destruct HP as [(Hr & Hp & Hg)|(Hr & Hp & Hg)].
+    + destruct (Nat.eq_dec p n) as [->|Hne].
+      * exists n, r. cbn [wstep]. rewrite Hg, rest_nil by lia. split; [|exact HS].
+        split; [exact Hh|]. left. cbn [wproj r_prog]. rewrite Hg, rest_nil by lia. auto.
+      * exists p, (S r). cbn [wstep]. rewrite Hg, rest_unfold by lia. cbn [frame_steps app w_prog w_hist w_subs]. split.
+        -- split; [cbn [wproj r_hist]; rewrite Hh, Hr; apply seq_snoc|]. right. cbn [wproj r_prog]. repeat split; lia.
+        -- eapply Forall_impl; [|exact HS]. intros x. apply RSInv_rec.
+    + exists (S p), r. cbn [wstep]. rewrite Hg. cbn [w_prog w_hist w_subs]. split.
+      * split; [exact Hh|]. left. cbn [wproj r_prog]. repeat split; lia.
+      * apply Forall_map. eapply Forall_impl; [|exact HS]. intros x. cbn [wdeliver w_s]. apply RSInv_deliver. left. auto.
+  - exists p, r. cbn [wstep w_prog w_hist w_subs]. split; [split; [exact Hh|exact HP]|].
+    rewrite Hh. apply Forall_upd_nth; [|exact HS]. intros x. apply RSInv_wsub.
+    destruct HP as [(Hr & _)|(Hr & _)]; lia.
+  - exists p, r. cbn [wstep w_prog w_hist w_subs]. split; [split; [exact Hh|exact HP]|].
+    apply Forall_map. eapply Forall_impl; [|exact HS]. intros x. cbn [wdeliver w_s]. apply RSInv_deliver. right. auto.
+Qed.
+
+Lemma WInv_run cap n sched : forall s, WInv n s -> WInv n (fold_left (wstep LagRefill cap) sched s).
+Proof.
+  induction sched as [|a l IH]; intros s H; [exact H|]. cbn [fold_left]. apply IH, WInv_step, H.
+Qed.
+
+(* every capacity, every stream length, every schedule (the producer may move inside every window), every subscriber *)
+Theorem exactly_once_with_refill_window : forall (cap n m : nat) (sched : list actor) (i : nat) (x : wsub),
+  nth_error (w_subs (wfinal LagRefill cap n m sched)) i = Some x -> wattached x = true ->
+  exists k, wdelivered LagRefill (wfinal LagRefill cap n m sched) x = seq 0 k
+            /\ wpublished n (wfinal LagRefill cap n m sched) <= k /\ k <= n
+            /\ (w_prog (wfinal LagRefill cap n m sched) = [] -> k = n).
+Proof.
+  intros cap n m sched i x Hn Ha. unfold wfinal in *.
+  destruct (WInv_run cap n sched _ (WInv_init n m)) as (p & r & HP & HS).
+  destruct (RPInv_published _ _ _ _ HP) as (Hpub & Hpr & Hrn & Hend). destruct HP as (Hh & _).
+  cbn [wproj r_hist r_prog] in Hh, Hend. unfold rpublished in Hpub. cbn [wproj r_prog] in Hpub.
+  apply nth_error_In in Hn. rewrite Forall_forall in HS. specialize (HS x Hn).
+  unfold wattached, rattached in Ha. apply Nat.leb_le in Ha.
+  unfold wdelivered, wpublished. rewrite Hh.
+  destruct (RSInv_wdrain p r x Hpr Ha HS) as (H1 & Hpc1 & Hnp1).
+  rewrite (wdrain_refill_shape (seq 0 r) (wdrain LagRefill (seq 0 r) x)), Hnp1. cbn [w_s].
+  destruct (RSInv_wplain p r _ Hpr Hpc1 Hnp1 H1) as (_ & k & Hk & Hk1 & Hk2).
+  exists k. split; [exact Hk|]. rewrite Hpub. split; [lia|]. split; [lia|]. intros E. specialize (Hend E). lia.
+Qed.
+
+Theorem exactly_once_with_refill_window_policies : forall (pols : list lagpolicy), forallb lag_refills pols = true ->
+  forall pol, In pol pols ->
+  forall (cap n m : nat) (sched : list actor) (i : nat) (x : wsub),
+  nth_error (w_subs (wfinal pol cap n m sched)) i = Some x -> wattached x = true ->
+  exists k, wdelivered pol (wfinal pol cap n m sched) x = seq 0 k
+            /\ wpublished n (wfinal pol cap n m sched) <= k /\ k <= n
+            /\ (w_prog (wfinal pol cap n m sched) = [] -> k = n).
+Proof.
+  intros pols H pol Hin. rewrite forallb_forall in H. specialize (H pol Hin). destruct pol; [discriminate| |discriminate].
+  exact exactly_once_with_refill_window.
+Qed.
+
+(* seed C06-8: capacity 1; the subscriber attaches, frames 0 and 1 are produced (the receiver lags), it reads: Lagged, the
+   history [0;1] is re-read; in the window frame 2 is recorded and published; the subscriber resumes - with a NEW receiver
+   at the channel's tail under LagRefillResubscribe; frame 3 is produced; everything is read.  Frame 2 is in neither the
+   re-read history nor the new receiver, and the running last_seq (3) hides it from every later re-read. *)
+Definition resub_sched : list actor := [AS 0; AS 0; AP; AP; AP; AP; AS 0; AP; AP; AS 0; AP; AP; AS 0].
+Lemma resubscribe_refuted :
+  w_prog (wfinal LagRefillResubscribe 1 4 1 resub_sched) = []
+  /\ map wattached (w_subs (wfinal LagRefillResubscribe 1 4 1 resub_sched)) = [true]
+  /\ map (wdelivered LagRefillResubscribe (wfinal LagRefillResubscribe 1 4 1 resub_sched)) (w_subs (wfinal LagRefillResubscribe 1 4 1 resub_sched)) = [[0; 1; 3]]
+  /\ map (wdelivered LagRefill (wfinal LagRefill 1 4 1 resub_sched)) (w_subs (wfinal LagRefill 1 4 1 resub_sched)) = [[0; 1; 2; 3]]
+  /\ map (wdelivered LagSkip (wfinal LagSkip 1 4 1 resub_sched)) (w_subs (wfinal LagSkip 1 4 1 resub_sched)) = [[1; 2; 3]].
+Proof. vm_compute. repeat split. Qed.
+(* ... and with room in the channel (capacity 4, 6 frames before the read, one frame in the window, one after) *)
+Definition resub_sched4 : list actor := [AS 0; AS 0] ++ repeat AP 12 ++ [AS 0; AP; AP; AS 0; AP; AP; AS 0].
+Lemma resubscribe_refuted_cap4 :
+  w_prog (wfinal LagRefillResubscribe 4 8 1 resub_sched4) = []
+  /\ map (wdelivered LagRefillResubscribe (wfinal LagRefillResubscribe 4 8 1 resub_sched4)) (w_subs (wfinal LagRefillResubscribe 4 8 1 resub_sched4)) = [[0; 1; 2; 3; 4; 5; 7]]
+  /\ map (wdelivered LagRefill (wfinal LagRefill 4 8 1 resub_sched4)) (w_subs (wfinal LagRefill 4 8 1 resub_sched4)) = [[0; 1; 2; 3; 4; 5; 6; 7]].
+Proof. vm_compute. repeat split. Qed.
+(* without a producer step inside the window the re-subscription loses nothing: the window is what matters *)
+Lemma resubscribe_quiet_window :
+  map (wdelivered LagRefillResubscribe (wfinal LagRefillResubscribe 1 4 1 [AS 0; AS 0; AP; AP; AP; AP; AS 0; AS 0; AP; AP; AP; AP; AS 0]))
+      (w_subs (wfinal LagRefillResubscribe 1 4 1 [AS 0; AS 0; AP; AP; AP; AP; AS 0; AS 0; AP; AP; AP; AP; AS 0])) = [[0; 1; 2; 3]].
 Proof. vm_compute. repeat split. Qed.
